@@ -122,6 +122,10 @@ def process(prog, kind, pidx, seed, growth=False, with_model=True, targets=None,
         dry = U.run_once(job, None, "str")
         res["runs"] += 1
         judge(dry)
+        if dry["res"] == "timeout":
+            res["timeouts"] = 1
+            U.clear_tables()
+            return res
         if dry["res"] != "ok":
             # the program fails by itself (required slot unfilled, inject without provider, ...): a failed render
             res["natural"] = True
@@ -154,6 +158,9 @@ def process(prog, kind, pidx, seed, growth=False, with_model=True, targets=None,
             U.clear_tables()
             o = U.run_once(job, i, variant)
             res["runs"] += 1
+            if o["res"] == "timeout":
+                res["timeouts"] = res.get("timeouts", 0) + 1
+                continue
             judge(o)
             after = ref_render(mode)
             if after != solo:
@@ -188,6 +195,10 @@ def process(prog, kind, pidx, seed, growth=False, with_model=True, targets=None,
                 v = VARIANTS[(hi + pidx) % len(VARIANTS)]
                 o = U.run_once(job, t, v, keep_alloc=True)
                 res["runs"] += 1
+                if o["res"] == "timeout":
+                    res["timeouts"] = res.get("timeouts", 0) + 1
+                    items = None
+                    break
                 judge(o, {"history": hist[: hi + 1]}, failed_before=any(x is not None for x in hist[:hi]))
                 if t is None and o["res"] == "ok" and o["out"] != dry["out"]:
                     res["failures"].append((trigger(prog, o, "later-render"), "later-render",
@@ -197,7 +208,7 @@ def process(prog, kind, pidx, seed, growth=False, with_model=True, targets=None,
                 cum_rc += o["rc"]
                 items.append((t, v, dict(o, meta=sorted(cum_meta), rc=cum_rc)))
             alloc = list(U.TR.alloc)
-            res["seq_term"] = C.clist(["(%s, %s, %s, %s)" % (U.c_items(tree, labels), U.c_umsg(v), U.c_fault(t), U.c_obs(o, labels, alloc))
+            res["seq_term"] = None if items is None else C.clist(["(%s, %s, %s, %s)" % (U.c_items(tree, labels), U.c_umsg(v), U.c_fault(t), U.c_obs(o, labels, alloc))
                                        for t, v, o in items])
             res["hist"] = hist
             U.clear_tables()
@@ -246,6 +257,114 @@ def growth_of(job, target, repeats=50):
     sizes = [len(t) for t in U.tables()]
     U.clear_tables()
     return {"delta_objects": n1 - n0, "table_sizes": sizes, "repeats": repeats}
+
+
+# ----------------------------------------------------------------------------------------------
+# Hand-written scenarios outside the generated calculus (direct oracle only)
+# ----------------------------------------------------------------------------------------------
+def scenarios(chk):
+    from django.template import Context, Template
+    from django_components import Component, registry
+    U.TR.enabled = False
+    seen = {}
+
+    class ScLeaf(Component):
+        template = "<i>{{ s }}</i>"
+
+        def get_context_data(self, s=None, f=None):
+            if f == "boom":
+                raise U.Boom("x")
+            if f == "base":
+                raise KeyboardInterrupt()
+            return {"s": s}
+
+    class ScUpper(Component):
+        template = "<div>{% filter upper %}{% component 'c06_sc_leaf' s=1 / %}{% endfilter %}{% component 'c06_sc_leaf' s=2 / %}</div>"
+
+    class ScProv(Component):
+        template = "<div>{% provide 'p' x=1 %}{% component 'c06_sc_leaf' s=1 / %}{% component 'c06_sc_leaf' s=2 f=f / %}{% endprovide %}</div>"
+
+        def get_context_data(self, f=None):
+            return {"f": f}
+
+    class ScRe(Component):
+        template = "<b>{{ s }}{% slot 'x' / %}</b>"
+
+        def get_context_data(self, s=None):
+            seen.setdefault("gcd", []).append(self.id)
+            return {"s": s}
+
+        def on_render_after(self, context, template, content):
+            seen.setdefault("after", []).append(self.id)
+
+    names = {"c06_sc_leaf": ScLeaf, "c06_sc_upper": ScUpper, "c06_sc_prov": ScProv, "c06_sc_re": ScRe}
+    for n, c in names.items():
+        registry.register(n, c)
+    obs = {}
+    try:
+        import djsetup
+        with djsetup.components_settings(context_behavior="django"):
+            # 1. stock {% filter upper %} mangles the placeholder of a nested component: the render finishes
+            U.clear_tables()
+            Template("{% component 'c06_sc_upper' / %}").render(Context({}))
+            if any(U.table_keys()):
+                chk.fail("c06-output-discarded-residue", "tables not empty after a finished render whose child placeholder was mangled by {% filter upper %}",
+                         {"scenario": "filter-upper", "tables": dict(zip(U.TABLE_NAMES, U.table_keys()))})
+            chk.count("scenario-filter-upper", True, kind="scenario")
+            # 2. one instance rendered again and again, failing and succeeding; re-entrant render from its own slot function
+            U.clear_tables()
+            inst = ScRe()
+            inner = []
+
+            def slotfn(ctx, data, ref):
+                inner.append(inst.render(kwargs={"s": "in"}, slots={"x": "leaf"}, render_dependencies=False))
+                return "S"
+            seen.clear()
+            try:
+                inst.render(kwargs={"s": "out"}, slots={"x": slotfn}, render_dependencies=False)
+            except Exception as e:  # noqa
+                seen["raised"] = "%s: %s" % (type(e).__name__, str(e)[:200])
+            ok = ("raised" not in seen and len(seen.get("gcd", [])) == 2 and len(seen.get("after", [])) == 2
+                  and seen["after"][0] == seen["gcd"][1]
+                  and seen["after"][1] == seen["gcd"][0] and len(inst._metadata_stack) == 0 and not any(U.table_keys()))
+            if not ok:
+                chk.fail("c06-finished-render-stacks", "re-entrant render of one instance: hooks saw a wrong render id / stack or tables not restored",
+                         {"scenario": "re-entrant-instance", "seen": seen, "stack": len(inst._metadata_stack),
+                          "tables": dict(zip(U.TABLE_NAMES, U.table_keys()))})
+            chk.count("scenario-re-entrant-instance", True, kind="scenario")
+            leaf = ScLeaf()
+            for f in ("boom", None, "boom", None):
+                try:
+                    leaf.render(kwargs={"s": 1, "f": f})
+                except U.Boom:
+                    pass
+                try:
+                    leaf.id
+                    outside = False
+                except RuntimeError:
+                    outside = True
+                if len(leaf._metadata_stack) or not outside or any(U.table_keys()):
+                    chk.fail("c06-failed-render-stacks", "a reused instance keeps render state after render() returned / raised",
+                             {"scenario": "reused-instance", "stack": len(leaf._metadata_stack), "tables": dict(zip(U.TABLE_NAMES, U.table_keys()))})
+                    break
+            chk.count("scenario-reused-instance", True, kind="scenario")
+            # 3. observation only (the statement is about exceptions of user code; KeyboardInterrupt is a BaseException)
+            U.clear_tables()
+            try:
+                Template("{% component 'c06_sc_prov' f='base' / %}").render(Context({}))
+            except BaseException:  # noqa
+                pass
+            obs["KeyboardInterrupt inside a provide body leaves"] = {n: k for n, k in zip(U.TABLE_NAMES, U.table_keys()) if k}
+            U.clear_tables()
+    except Exception as e:  # noqa
+        import traceback
+        chk.fail("c06-scenario-unexpected-exception", "a hand-written scenario raised %s" % type(e).__name__,
+                 {"scenario": "see traceback", "traceback": traceback.format_exc()[-1500:]})
+    finally:
+        for n in names:
+            registry.unregister(n)
+        U.TR.enabled = True
+    return obs
 
 
 def _worker(args):
@@ -315,8 +434,11 @@ def run(tier, seed):
         for p in gen_programs(chk, nprog, mode):
             jobs.append((p, "page", pidx, seed, pidx % 25 == 0, True))
             pidx += 1
-            if R.python_variant_applicable(p) is not None and chk.rng.random() < 0.7:
-                jobs.append((p, "python", pidx, seed, False, True))
+            # Component.render(context, kwargs, slots=functions) of one top-level component of the page
+            single = next((dict(p, page=[t]) for t in p["page"]
+                           if t[0] == "comp" and R.python_variant_applicable(dict(p, page=[t])) is not None), None)
+            if single is not None and chk.rng.random() < 0.6:
+                jobs.append((single, "python", pidx, seed, False, True))
                 pidx += 1
             elif chk.rng.random() < 0.12:
                 # the dynamic component renders its target inside get_context_data: outside the model's tree shape,
@@ -344,6 +466,7 @@ def run(tier, seed):
         for k, v in r["fault_kinds"].items():
             chk.dist["fault-at:" + k] += v
         chk.dist["fault-below-root"] += r["nontrivial"]
+        chk.dist["watchdog-timeouts(inconclusive)"] += r.get("timeouts", 0)
         for trig, what, rep in r["failures"]:
             chk.fail(trig, "C06 oracle '%s' failed (%s)" % (what, trig), rep)
         for what, rep in r["disagree"]:
@@ -371,6 +494,8 @@ def run(tier, seed):
         prog, kind, hist = smeta[i]
         chk.disagree("model != implementation on a history of renders", {"program": prog, "kind": kind, "history": hist,
                                                                           "source": describe(prog, kind)})
+    sc_obs = scenarios(chk)
+    chk.extra["not_claimed_observations"] = sc_obs
     chk.extra["harness_only_observations"] = {
         "note": "GC reachability of sentinel objects and object-count growth are observed on the implementation only; "
                 "the theorems cover the module-level tables, the metadata stacks and the render_context stack",
